@@ -180,8 +180,12 @@ def Valid (p : PointIn) (prec : String) : Bool :=
 /-- the default time is far enough inside the int64 range to be cut to a second -/
 def dtSane (dt : Int) : Bool := -(2 ^ 63 : Int) + 1000000000 ≤ dt && dt < 2 ^ 63
 
-/-- a valid observation: a valid point, and a usable default time when the point has none -/
-def ValidObs (o : PtObs) : Bool := Valid o.p o.prec && (o.p.time.isSome || dtSane o.dt)
+/-- the precisions of the write API -/
+def precOK (prec : String) : Bool := prec == "ns" || prec == "us" || prec == "ms" || prec == "s"
+
+/-- a valid observation: a valid point, a supported precision, and a usable default time when
+    the point has no timestamp -/
+def ValidObs (o : PtObs) : Bool := Valid o.p o.prec && precOK o.prec && (o.p.time.isSome || dtSane o.dt)
 
 /-- the statement on one `NewPoint → String → Parse` observation -/
 def holdsOnPt (o : PtObs) : Bool :=
